@@ -26,12 +26,32 @@ pub mod lib {
     /// `vec![0u8; n]` of the fixed-metadata buffer: real allocation, BOUNDED to 128 bytes
     #[macro_export]
     macro_rules! vec { () => { std::vec::Vec::new() }; ($($x:expr),+ $(,)?) => { std::vec![$($x),+] }; ($v:expr; $n:expr) => {{ let n = $n; kani::assume(n <= 128); std::vec![$v; n] }}; }
-    /// helpers table / allowed ranges: only insertion and cloning happen at this level
+    /// helpers table: a real (tiny) map - exact semantics for up to 3 keys
     #[derive(Clone)]
-    pub struct HashMap<K, V> { pub last: Option<(K, V)>, pub ninsert: u8 }
-    impl<K, V> HashMap<K, V> {
-        pub fn new() -> Self { HashMap { last: None, ninsert: 0 } }
-        pub fn insert(&mut self, k: K, v: V) -> Option<V> { self.last = Some((k, v)); if self.ninsert < 250 { self.ninsert += 1; } None }
+    pub struct HashMap<K, V> { pub k: [Option<K>; 3], pub v: [Option<V>; 3], pub n: usize }
+    impl<K: Copy + PartialEq, V: Copy> HashMap<K, V> {
+        pub fn new() -> Self { HashMap { k: [None; 3], v: [None; 3], n: 0 } }
+        fn find(&self, key: &K) -> Option<usize> {
+            let mut i = 0;
+            let mut r = None;
+            while i < 3 { if i < self.n && self.k[i] == Some(*key) { r = Some(i); } i += 1; }
+            r
+        }
+        pub fn get(&self, key: &K) -> Option<&V> { match self.find(key) { Some(i) => self.v[i].as_ref(), None => None } }
+        pub fn insert(&mut self, key: K, val: V) -> Option<V> {
+            match self.find(&key) {
+                Some(i) => self.v[i].replace(val),
+                None => { assert!(self.n < 3, "harness container capacity exceeded"); self.k[self.n] = Some(key); self.v[self.n] = Some(val); self.n += 1; None }
+            }
+        }
+        pub fn entry(&mut self, key: K) -> Entry<'_, K, V> { Entry { m: self, key } }
+    }
+    pub struct Entry<'a, K, V> { m: &'a mut HashMap<K, V>, key: K }
+    impl<'a, K: Copy + PartialEq, V: Copy> Entry<'a, K, V> {
+        pub fn or_insert(self, v: V) -> &'a mut V {
+            let i = match self.m.find(&self.key) { Some(i) => i, None => { self.m.insert(self.key, v); self.m.n - 1 } };
+            self.m.v[i].as_mut().unwrap()
+        }
     }
     #[derive(Clone)]
     pub struct HashSet<T> { pub last: Option<T>, pub ninsert: u8 }
